@@ -119,6 +119,25 @@ func (g *gblock) onAdapterMutex() bool {
 	return false
 }
 
+// innermostIsAdapterClose: the innermost frame that is not runtime code is a
+// close function of the adapter transport.
+func (g *gblock) innermostIsAdapterClose() bool {
+	for _, l := range strings.Split(g.Text, "\n")[1:] {
+		if l == "" || l[0] == '\t' || strings.HasPrefix(l, "runtime.") {
+			continue
+		}
+		if !strings.HasPrefix(l, adapterSym) {
+			return false
+		}
+		n := l[len(adapterSym):]
+		if i := strings.IndexByte(n, '('); i >= 0 {
+			n = n[:i]
+		}
+		return isCloseName(n)
+	}
+	return false
+}
+
 func isCloseName(n string) bool {
 	return strings.HasPrefix(strings.ToLower(n), "close") && n != "Closed"
 }
@@ -149,6 +168,7 @@ func (r *rel) in(name string) bool {
 // lockPicture is what a dump says about one adapter transport.
 type lockPicture struct {
 	stuckSend   *rel  // a goroutine parked in close() on the closeSignal send (it holds f.mu)
+	stuckRecv   bool  // ... or on a receive from closeSignal inside close()
 	readers     []rel // read loops of this transport
 	nascent     bool  // a read loop that cannot be attributed (just started, or receiver not printed reliably)
 	closing     bool  // some goroutine is inside close() of this transport
@@ -216,6 +236,12 @@ func analyse(blocks []gblock, ptr, gid string) lockPicture {
 			p.closing = true
 			if strings.HasPrefix(g.State, "chan send") && p.stuckSend == nil {
 				p.stuckSend = rr
+			}
+			// a plain receive inside close() itself (not in a callee): only
+			// another close() could send, and that needs the mutex held here
+			if strings.HasPrefix(g.State, "chan receive") && g.innermostIsAdapterClose() && p.stuckSend == nil {
+				p.stuckSend = rr
+				p.stuckRecv = true
 			}
 		}
 		if r.Reader {
